@@ -2,6 +2,7 @@ package rules
 
 import (
 	"fmt"
+	"go/constant"
 	"go/token"
 	"go/types"
 	"reflect"
@@ -431,6 +432,46 @@ func checkWalkerLoop(ctx *Ctx, key, pos string, fn *ssa.Function, call *ssa.Call
 		return
 	} else {
 		structVal = nf.Call.Args[0]
+	}
+	// helper form: `p, ok := fieldPtr(hv, i); if !ok { continue }` where the helper yields
+	// (Field(i).Addr().Interface(), true) for an exported field, (nil, false) for an unexported one and panics
+	// when the field cannot be addressed
+	if ex, isEx := dataArg.(*ssa.Extract); isEx && ex.Index == 0 {
+		if hc, isCall := ex.Tuple.(*ssa.Call); isCall && hc.Call.StaticCallee() != nil && len(hc.Call.Args) == 2 && hc.Call.Args[0] == structVal && hc.Call.Args[1] == ssa.Value(iv) {
+			if msg := fieldPtrHelper(hc.Call.StaticCallee()); msg != "" {
+				fail("the helper " + hc.Call.StaticCallee().Name() + " that yields the field pointer: " + msg)
+				return
+			}
+			// the loop body's first test is the helper's ok result, the transfer on its true edge
+			body := L.Header.Succs[0]
+			biff, _ := body.Instrs[len(body.Instrs)-1].(*ssa.If)
+			okv, _ := func() (*ssa.Extract, bool) {
+				if biff == nil {
+					return nil, false
+				}
+				e, ok := biff.Cond.(*ssa.Extract)
+				return e, ok
+			}()
+			if okv == nil || okv.Tuple != ssa.Value(hc) || okv.Index != 1 || !edgeDominates(body, 0, call.Block()) || !L.Body[body.Succs[1]] {
+				fail("the helper's ok result does not decide between transferring the field and going on to the next one")
+				return
+			}
+			for b := range L.Body {
+				if b == L.Header || b == body || !b.Dominates(call.Block()) || b == call.Block() {
+					continue
+				}
+				if _, isIf := b.Instrs[len(b.Instrs)-1].(*ssa.If); isIf {
+					fail("a second condition stands between the field pointer and the transfer")
+					return
+				}
+			}
+			if msg := walkerErrorHandling(L, call); msg != "" {
+				fail(msg)
+				return
+			}
+			R.Pass("walkers", key, pos, fmt.Sprintf("i=0..NumField()-1, %s(_, LittleEndian, p) with (p, ok) from %s(hv, i): Field(i).Addr().Interface() for exported fields, skipped otherwise; an error ends the walk and is returned", apiName, hc.Call.StaticCallee().Name()))
+			return
+		}
 	}
 	// the pointer argument: Field(i).Addr().Interface()
 	ifaceCall, ok1 := isMethod(dataArg, "(reflect.Value).Interface")
@@ -1100,4 +1141,79 @@ func seenRoot(seen map[*ssa.Function]bool) *ssa.Function {
 		}
 	}
 	return nil
+}
+
+// fieldPtrHelper checks a helper h(hv reflect.Value, i int) (p interface{}, ok bool): f = hv.Field(i); unexported
+// (CanInterface false) -> (nil, false); not addressable -> panic; otherwise (f.Addr().Interface(), true).
+func fieldPtrHelper(h *ssa.Function) string {
+	if h.Blocks == nil || len(h.Params) != 2 || h.Signature.Results().Len() != 2 {
+		return "not a function (struct value, index) -> (pointer, ok)"
+	}
+	isM := func(v ssa.Value, name string) (*ssa.Call, bool) {
+		c, ok := v.(*ssa.Call)
+		if !ok || c.Call.StaticCallee() == nil {
+			return nil, false
+		}
+		return c, c.Call.StaticCallee().String() == name
+	}
+	isField := func(v ssa.Value) bool {
+		fc, ok := isM(v, "(reflect.Value).Field")
+		return ok && fc.Call.Args[0] == ssa.Value(h.Params[0]) && fc.Call.Args[1] == ssa.Value(h.Params[1])
+	}
+	var ciBlock, caBlock *ssa.BasicBlock
+	for _, b := range h.Blocks {
+		iff, ok := b.Instrs[len(b.Instrs)-1].(*ssa.If)
+		if !ok {
+			continue
+		}
+		if c, ok := isM(iff.Cond, "(reflect.Value).CanInterface"); ok && isField(c.Call.Args[0]) {
+			ciBlock = b
+		} else if c, ok := isM(iff.Cond, "(reflect.Value).CanAddr"); ok && isField(c.Call.Args[0]) {
+			caBlock = b
+			// the not-addressable edge must panic
+			if _, isP := b.Succs[1].Instrs[len(b.Succs[1].Instrs)-1].(*ssa.Panic); !isP {
+				return "a field that cannot be addressed does not panic"
+			}
+		} else {
+			return "a condition other than CanInterface / CanAddr of Field(i): " + iff.Cond.String()
+		}
+	}
+	if ciBlock == nil {
+		return "unexported fields are not told apart (no CanInterface test of Field(i))"
+	}
+	nTrue := 0
+	for _, b := range h.Blocks {
+		ret, ok := b.Instrs[len(b.Instrs)-1].(*ssa.Return)
+		if !ok {
+			continue
+		}
+		okc, isC := ret.Results[1].(*ssa.Const)
+		if !isC || okc.Value == nil {
+			return "ok is not a constant on a return"
+		}
+		if constant.BoolVal(okc.Value) {
+			nTrue++
+			ic, ok1 := isM(ret.Results[0], "(reflect.Value).Interface")
+			okPtr := false
+			if ok1 {
+				if ac, ok2 := isM(ic.Call.Args[0], "(reflect.Value).Addr"); ok2 && isField(ac.Call.Args[0]) {
+					okPtr = true
+				}
+			}
+			if !okPtr {
+				return "the pointer returned with ok=true is not Field(i).Addr().Interface()"
+			}
+			if !edgeDominates(ciBlock, 0, b) || (caBlock != nil && !edgeDominates(caBlock, 0, b)) {
+				return "ok=true is returned without the field having passed the exported / addressable tests"
+			}
+		} else {
+			if !edgeDominates(ciBlock, 1, b) {
+				return "ok=false is returned for something other than an unexported field"
+			}
+		}
+	}
+	if nTrue != 1 {
+		return fmt.Sprintf("%d returns with ok=true, want 1", nTrue)
+	}
+	return ""
 }
